@@ -4,7 +4,7 @@ from vlib import core
 
 THEOREMS = ['follows_doc', 'follows_doc_read', 'doc_covered', 'malformed_rejected', 'wellformed_accepted', 'wellFormed_iff_accepted',
             'never_request_on_reject', 'wire_length', 'ka_enforced', 'ka_enforced_value', 'ka_on_every_write', 'ka_nowhere_else', 'ka_idempotent',
-            'ka_only_setreaderconfig', 'ka_is_half_timeout', 'ka_source', 'switch_matches_model', 'read_default_iff', 'write_default_iff',
+            'ka_only_setreaderconfig', 'ka_is_half_timeout', 'switch_matches_model', 'read_default_iff', 'write_default_iff',
             'action_default_iff', 'codes_defined']
 MODULES = ['LLRP.Model.Command']
 RULE = ('real HandleReadCommands/HandleWriteCommands against a scripted reader recording every frame: reads = every list of 0-3 names '
@@ -128,7 +128,6 @@ def replay(res, path):
         raise RuntimeError('replay has no case lines')
     # the sweep is cheap: run it again and report only the replayed request lines
     want = set(case)
-    sub = core.Result(res.pid, 'quick', body.get('seed', 1))
     binp, out = core.build_harness('driver')
     if not binp:
         raise RuntimeError('harness build failed:\n' + out[-3000:])
